@@ -132,6 +132,7 @@ def run(ctx):
     # the repository's own test suite under the tracer: every * / ** it performs, judged by BCalc.tla
     from checks import bcalccheck
     bcalccheck.repo_suite(ctx, {'Mul', 'Div', 'Pow'})
+    bcalccheck.dep_canonical(ctx, bcalccheck.DEP['C02'])
 
 
 def replay(ctx, rp):
